@@ -389,7 +389,7 @@ def drive(rep, tier, seed, wd):
     # integers in both representations
     ints = [0, 1, -1, 9, 10, -10, 15, 16, 255, -255, 256, -256, 2 ** 31 - 1, -2 ** 31, 2 ** 63 - 1, -2 ** 63, 2 ** 63, -2 ** 63 - 1, 2 ** 64, -2 ** 64,
             10 ** 18, -10 ** 19]
-    for _ in range(60 if q else 1200):
+    for _ in range(160 if q else 1200):
         ints.append(numgen_int(rng, tier))
     bi = 0
     for n in ints:
@@ -407,7 +407,7 @@ def drive(rep, tier, seed, wd):
                 st2 += ["str_radix(nn, %d)" % b, "int_radix(str_radix(nn, %d), %d)" % (b, b)]
             add(st2, {"ev": "radix", "n": n, "rep": rp, "bases": bases})
     # int_radix / int() on arbitrary digit strings
-    for _ in range(150 if q else 3000):
+    for _ in range(400 if q else 3000):
         b = rng.randint(2, 36)
         k = rng.choice([1, 1, 2, 5, 12, 40])
         alpha = "0123456789abcdefghijklmnopqrstuvwxyz"[:b]
@@ -421,7 +421,7 @@ def drive(rep, tier, seed, wd):
             pos = rng.randrange(len(s) + 1)
             s = s[:pos] + rng.choice("0123456789abcdefghijklmnopqrstuvwxyz"[b:] + "-+ _.é٣") + s[pos:]
         add(["int_radix(%s, %d)" % (L.str_lit(s), b)], {"ev": "iradix", "s": s, "b": b})
-    for _ in range(80 if q else 1500):
+    for _ in range(200 if q else 1500):
         sg = rng.choice(["", "", "-", "+", "--", " "])
         body = rng.choice(["0", "7", "007", "12345678901234567890123", str(rng.randint(0, 10 ** 9)), "", "1.0", "1e3", "12a", "٣"])
         s = sg + body
@@ -430,7 +430,7 @@ def drive(rep, tier, seed, wd):
     rats = ["-0.5", "-1.5", "0.5", "1.5", "-0.25", "-12.75", "-0.0", "-00.125", "-1.5e2", "-1.5e-2", "-2.5/2", "1.5/-2.5", "-1.5/-0.5", " -3/4 ", "3 / 4",
             "+1.5", "1.", ".5", "0.", "1e0", "1E3", "1e+3", "1e-3", "10/4", "0/5", "5/0", "1.5/0.0", "", " ", ".", "1..2", "1e", "e5", "1e1.5", "1/2/3",
             "abc", "-", "+", "1 2", "0x10", "1,5", "١"]
-    for _ in range(200 if q else 4000):
+    for _ in range(600 if q else 4000):
         if rng.random() < 0.75:
             rats.append(rand_decimal(rng))
         else:
@@ -440,7 +440,7 @@ def drive(rep, tier, seed, wd):
     # byte strings
     bss = [[], [0], [255], [0, 0, 0], [255, 255, 255], list(range(256)), [0xc3, 0xa9], [0xf0, 0x9f, 0x90, 0x89], [0xed, 0xa0, 0x80], [0xc0, 0x80],
            [0xf4, 0x90, 0x80, 0x80], [0xe2, 0x82], [0x80]]
-    for _ in range(150 if q else 3000):
+    for _ in range(400 if q else 3000):
         k = rng.choice([1, 2, 3, 4, 5, 7, 16, 33, 100])
         if rng.random() < 0.4:
             b = list(rand_string(rng, False).encode("utf-8"))[:k * 4] or [65]
@@ -453,7 +453,7 @@ def drive(rep, tier, seed, wd):
         add(["bb := " + L.bytes_lit(b), "hex_encode(bb)", "hex_decode(hex_encode(bb))", "base64_encode(bb)", "base64_decode(base64_encode(bb))",
              "utf8_decode(bb)", "utf8_encode(utf8_decode(bb))", "decompress(compress(bb))"], {"ev": "bytes", "b": b})
     # decoding of arbitrary text
-    for _ in range(120 if q else 2500):
+    for _ in range(300 if q else 2500):
         k = rng.choice([0, 1, 2, 3, 4, 6, 8, 20])
         s = "".join(rng.choice("0123456789abcdefABCDEF") for _ in range(k))
         if rng.random() < 0.3 and s:
@@ -474,19 +474,19 @@ def drive(rep, tier, seed, wd):
         add(["base64_decode(%s)" % L.str_lit(t)], {"ev": "b64dec", "s": t})
     # Unicode strings, chr / ord
     strs = ["", "a", "é", "🐉", "a🐉é\u0000", "퟿", "\U0010ffff", "߿ࠀ￿\U00010000"]
-    for _ in range(120 if q else 2500):
+    for _ in range(300 if q else 2500):
         strs.append(rand_string(rng, False))
     for s in dict.fromkeys(strs):
         sl = L.str_lit(s)
         add(["ss := " + sl, "utf8_encode(ss)", "utf8_decode(utf8_encode(ss))", "ss map ord", "(ss map ord map chr) join \"\""],
             {"ev": "str", "s": s})
     for n in [0, 65, 127, 128, 0x7ff, 0x800, 0xd7ff, 0xd800, 0xdbff, 0xdc00, 0xdfff, 0xe000, 0xffff, 0x10000, 0x10ffff, 0x110000, -1, -65, 2 ** 31, 2 ** 32 + 65,
-              2 ** 64 + 65, -2 ** 63] + [rng.randint(0, 0x10ffff) for _ in range(40 if q else 800)]:
+              2 ** 64 + 65, -2 ** 63] + [rng.randint(0, 0x10ffff) for _ in range(120 if q else 800)]:
         for rp in ("S", "B"):
             src = "chr(%s)" % L.int_src(n, rp)
             add([src, "ord(%s)" % src], {"ev": "chr", "n": n, "rep": rp})
     # JSON-shaped values
-    for i in range(220 if q else 4000):
+    for i in range(600 if q else 4000):
         printable = rng.random() < 0.7
         v = rand_value(rng, tier, rng.choice([0, 1, 2, 3]), printable)
         add(["vv := " + L.value_src(v), "vv", "json_encode(vv)", "json_decode(json_encode(vv))", "eval(json_encode(vv))", "repr(vv)", "eval(repr(vv))"],
